@@ -360,7 +360,9 @@ static CollapsePre collapse_pre(W &w, int heh) {
 
 static void oracle_collapse_post(W &w, const CollapsePre &pre, int ret, StepOut &out) {
     auto &m = w.mesh;
-    if (!pre.applicable) return;
+    if (!pre.applicable) { stat_event("collapse_link_condition_not_met"); return; }
+    stat_event(m.deferred_deletion_enabled() ? (m.fast_deletion_enabled() ? "collapse_oracle_deferred_fast" : "collapse_oracle_deferred_slow")
+                                             : (m.fast_deletion_enabled() ? "collapse_oracle_immediate_fast" : "collapse_oracle_immediate_slow"));
     if (ret < 0 || ret >= (int)m.n_vertices() || m.is_deleted(VH(ret)) || tok(w, ret) != pre.tok_b) {
         out.fail("C15", "collapse_edge: the returned handle " + std::to_string(ret) + " does not designate the surviving vertex b"); }
     std::multiset<std::array<int, 4>> got; size_t n = 0;
@@ -390,6 +392,7 @@ static void oracle_tet_queries(W &w, StepOut &out) {
     for (int ci = 0; ci < (int)m.n_cells(); ++ci) {
         CH c(ci); std::vector<int> all;
         if (!wf_tet(w, c, &all)) continue;
+        stat_event("wf_tet_checked");
         auto fail = [&](const std::string &s) { out.fail("C15", "cell " + std::to_string(ci) + ": " + s); };
         auto hfs = m.cell(c).halffaces();
         auto apex_of = [&](HFH hf) { auto v = hf_verts(w, hf); for (int x : all) if (x != v[0] && x != v[1] && x != v[2]) return x; return -1; };
